@@ -38,13 +38,13 @@ def allIdx : List Nat → List (List Nat)
   | [] => [[]]
   | d :: ds => (List.range d).flatMap fun i => (allIdx ds).map (i :: ·)
 
-def arrOfJson (j : Json) : Except String Arr := do
+def arrOfJson (j : Json) : Except String IArr := do
   let shape ← natList (← field j "shape")
   let data := ((← arrOf (← field j "data")).mapM intOf)
   let arr := (← data).toArray
   pure { shape := shape, get := fun idx => arr.getD (ravel shape idx) 0 }
 
-def jArrOf (a : Arr) : Json :=
+def jArrOf (a : IArr) : Json :=
   jObj [("shape", jNats a.shape), ("data", jArr ((allIdx a.shape).map fun idx => jInt (a.get idx)))]
 
 def jKey (k : List (Ix × Nat)) : Json := jPairs k
@@ -118,7 +118,7 @@ def chunks : Handler := fun j => do
   let slices ← (← arrOf (← field j "slices")).mapM arrOfJson
   let sa := slices.toArray
   -- a slice result has the shape of slice 0 (the sum keeps the first operand's shape)
-  let res := genOutputChunks out sl mult (fun i => sa.getD i Arr.zero)
+  let res := genOutputChunks out sl mult (fun i => sa.getD i IArr.zero)
   let plan := chunkPlan out sl mult
   pure (jObj [("chunks", jArr (res.map fun (a, k) => jObj [("key", jKey k), ("arr", jArrOf a)])),
               ("plan", jArr (plan.map fun (is, k) => jObj [("slices", jNats is), ("key", jKey k)]))])
